@@ -540,6 +540,13 @@ def write_evidence(mod, pid, tier, seed, merged, wall, nshards):
     }
     for k, v in merged["extra"].items():
         cov.setdefault(k, v)
+    if cov.get("atheris_executions"):
+        cov["rule"] += (
+            " Second engine (thorough tier): atheris / libFuzzer campaigns, "
+            "one per shard, feed their bytes as tapes into the same "
+            "generators and the same checks with only the package under "
+            "test instrumented for coverage; their cases are counted under "
+            "classes 'engine:atheris:*' and in 'atheris_executions'.")
     if merged["exhaustive"] is not None:
         cov["exhaustive"] = bool(merged["exhaustive"])
     ev = {
@@ -587,6 +594,74 @@ def report(pid, merged):
     return code
 
 
+def fuzz_stage(mod, pid, seed, nshards):
+    """atheris campaigns over the module's own generators and checks (see
+    vp/fuzzchild.py); returns result dicts to merge, or an error string"""
+    import shutil
+    import subprocess
+    try:
+        import atheris  # noqa: F401
+    except Exception as e:
+        return [{**Ctx(pid, "thorough", seed).result(),
+                 "extra": {"atheris_stage": f"skipped: {e!r}"}}]
+    total = int(os.environ.get("VP_FUZZ_RUNS") or mod.FUZZ_RUNS)
+    runs = max(200, total // nshards)
+    d = os.path.join(VERIF, "scratch", f"fuzz-{pid}-{os.getpid()}")
+    os.makedirs(d, exist_ok=True)
+    procs = []
+    try:
+        for k in range(nshards):
+            out = os.path.join(d, f"{k}.json")
+            procs.append((out, subprocess.Popen(
+                [sys.executable, "-m", "vp.fuzzchild", pid, str(seed), str(k),
+                 str(nshards), str(runs), out], cwd=VERIF,
+                stdout=subprocess.DEVNULL, stderr=subprocess.PIPE)))
+        results, fails = [], []
+        deadline = time.time() + int(os.environ.get("VP_FUZZ_WALL", "2400"))
+        for out, pr in procs:
+            try:
+                _, err = pr.communicate(timeout=max(5, deadline - time.time()))
+            except subprocess.TimeoutExpired:
+                pr.kill()
+                _, err = pr.communicate()
+            if not os.path.exists(out):
+                fails.append((err or b"").decode(errors="replace")[-1500:])
+                continue
+            with open(out) as fh:
+                r = json.load(fh)
+            if r.get("harness_errors"):
+                fails.append(r["harness_errors"][0])
+                continue
+            r["extra"]["atheris_children"] = 1
+            if not r.get("final"):
+                r["extra"]["atheris_children_cut_short"] = 1
+            results.append(r)
+        if fails:
+            return "atheris stage: " + fails[0]
+        # minimise what the campaigns recorded, with the module's own
+        # check_case / shrink, in this process
+        ctx = Ctx(pid, "thorough", seed)
+        done = {}
+        for r in results:
+            for v in r["violations"]:
+                if v["sig"] in done:
+                    continue
+                try:
+                    case, msg = ctx._ddmin(
+                        lambda c: mod.check_case(ctx, c), v["sig"], v["msg"],
+                        v["case"], getattr(mod, "shrink", None))
+                except Exception:
+                    case, msg = v["case"], v["msg"]
+                done[v["sig"]] = {"sig": v["sig"], "msg": msg, "case": case}
+            r["violations"] = [done[v["sig"]] for v in r["violations"]]
+        return results
+    finally:
+        for _, pr in procs:
+            if pr.poll() is None:
+                pr.kill()
+        shutil.rmtree(d, ignore_errors=True)
+
+
 def main_run(pid, tier, seed, nshards=None):
     import importlib
     modname = f"vp.props.{pid.lower()}"
@@ -610,7 +685,15 @@ def main_run(pid, tier, seed, nshards=None):
     if errs:
         print(f"HARNESS-ERROR property={pid}\n{errs[0]}", file=sys.stderr)
         return 2
-    merged = merge([o[1] for o in outs])
+    results = [o[1] for o in outs]
+    if tier == "thorough" and getattr(mod, "FUZZ_RUNS", 0) \
+            and os.environ.get("VP_FUZZ", "1") != "0":
+        fz = fuzz_stage(mod, pid, seed, nshards)
+        if isinstance(fz, str):
+            print(f"HARNESS-ERROR property={pid}\n{fz}", file=sys.stderr)
+            return 2
+        results += fz
+    merged = merge(results)
     wall = time.time() - t0
     # vacuity guard: a run that explored nothing non-trivial is a harness
     # problem, never a pass
